@@ -6,7 +6,11 @@ HOOK_COMMITS = ["d85c6ee", "170bde9", "43ffa35", "8043914", "4c6f2d6"]
 
 # id -> (engine, category, technique, level text, level note, design ref)
 CHECKS = {
- "C03": ("E2-explicit-state", "model_checking",
+ "C12": ("E2-explicit-state", "model_checking",
+   "explicit-state BFS over operation sequences whose state is the real RoutingTable plus the virtual clock; invariants on every state, transition relation on every step",
+   "From six initial states (empty, 19/20-node buckets, aged across the 15-minute staleness boundary, stale head with fresh tail) every sequence of up to 5 (quick) / 6 (thorough) operations over a 21-action alphabet (adds that stress the bucket and the per-IP rules, removes, re-keys, clock steps) is executed on the real table; structural and Sybil invariants are checked in every state and the eviction rule across every add.",
+   "Node ids/IPs come from a fixed pool; BEP42 security decided by the independent reference.", "DESIGN.md section 6, C12"),
+  "C03": ("E2-explicit-state", "model_checking",
    "explicit-state BFS over request histories on clones of the real Server, reference model in lock-step",
    "All request histories up to depth 6 (quick) / 8 (thorough) over five sub-alphabets (valid and invalid writes of every kind, token provenance classes, boundary sizes, timestamps around +-45 s, clock steps around the rotation period, request filter) are executed against the real Server through the real codec; every reply and the stored state are compared with a reference model after every transition.",
    "States hold real Server clones; capacities 8/4/4 instead of defaults; the layers above Server::handle_request are covered by the E1 checks.", "DESIGN.md section 6, C03"),
